@@ -69,6 +69,10 @@ def run(ctx):
         import c10 as c10_
         ctx.guard(c08_keep, ctx, lambda: c10_.best_effort(ctx, cfg, fs), lambda o: 'failure-scope' in o.key or 'failure-hands-back' in o.key, 'H.help-is-output')
         ctx.guard(c08_keep, ctx, lambda: c10_.ambiguity(ctx, cfg, fs), lambda o: 'completion-known-after-tokenizing' in o.key, 'K.completion-marker')
+        import c05 as c05_, c14 as c14_
+        ctx.guard(c08_keep, ctx, lambda: c05_.scope_restore(ctx, cfg, fs), lambda o: 'adjacent-ok-scope' in o.key, 'H.help-is-output')
+        if fs.find(r'^complete_gen::<impl args::inner::State>::check_complete$', required=False):
+            ctx.guard(c08_keep, ctx, lambda: c14_.no_late_none(ctx, cfg, fs), lambda o: True, 'K.completion-marker')
         import c08, c09
         ctx.guard(c08.keep_only, ctx, lambda: c09.tokenizer(ctx, cfg, fs), lambda o: 'pos-only' in o.key, 'K.completion-marker')
         ctx.guard(run_flow, ctx, cfg, fs)
